@@ -30,8 +30,11 @@ Obs(e) == LET in  == Primary(e["in"])
               exists      |-> e.exists,
               readable    |-> e.readable,
               sorted      |-> e.so = "coordinate" /\ CoordSorted(e.out),
-              indexed     |-> e.bai /\ e.index_usable,
-              complete    |-> ContainsAll(InKeys(in), OutKeys(in, out))]
+              \* an index that belongs to THIS output: present, not older than the BAM, and every placed record is reachable through it
+              indexed     |-> e.bai /\ e.index_usable /\ e.index_fresh
+                              /\ e.via_index = Cardinality({ k \in DOMAIN e.out : e.out[k].tid >= 0 }),
+              complete    |-> ContainsAll(InKeys(in), OutKeys(in, out)),
+              reheadered  |-> ReadGroupsDeclared(out, e.hdr_rg)]
 
 Verdict(e) == IF e.ev \in {"case", "snap"} THEN TP!C20Clause(Obs(e)) ELSE "unknown_event"
 
